@@ -47,6 +47,7 @@ Init == /\ expect = [t |-> "none"]
               sc \in SCALES \cup {"unit"} :
              /\ Len(N) >= MinOrder(op)
              /\ (g # "none" => HasGuess(op))
+             /\ (g \in {"sweep1", "sweep2"} => op \in CrossOps /\ sc = "unit")
              /\ (g = "zero" => op \in ProductOps \cup SolveOps \cup {"elementwise_divide", "elementwise_divide_c"})
              /\ (g \in {"exact1", "exact2"} => op \in ProductOps /\ sc = "unit")
              /\ (cx => ComplexOK(op))
